@@ -702,7 +702,13 @@ def execute(spec):
                     import time as _t
 
                     t_op = _t.time()
-                    err = cl.run_op(o)
+                    try:
+                        err = cl.run_op(o)
+                    except (DrawDiverges, BudgetExceeded):
+                        # a target draw that does not return (known findings F-sz-norm / F-draw-raise, judged by C11 / C06) inside
+                        # an operation whose result is not compared: the operation ends there, the history goes on
+                        cl.count("operation_ended_by_draw_budget")
+                        err = None
                     cl.stats["wall_ms:" + o["op"]] = cl.stats.get("wall_ms:" + o["op"], 0) + int(1000 * (_t.time() - t_op))
                     if err and err != "done":
                         return {"harness_error": err, "violations": []}
